@@ -109,9 +109,11 @@ theorem cycleCheck_sat {ar : Prop} {nin : Nat} {gates : List (Lit × Lit)} (c : 
       exact Sat.fail
   · exact Sat.ok trivial
 
-theorem parseBinary_sat {h : Header} (hh : HeaderOK h) (hb : h.binary = true) {firstLatch firstAnd : Nat}
+theorem parseBinary_sat (cfg : Cfg) {h : Header} (hh : HeaderOK h) (hb : h.binary = true)
+    {firstLatch firstAnd : Nat}
     (hfl : firstLatch = 1 + h.inputs) (hfa : firstAnd = firstLatch + h.latches) (inp : Bytes) :
-    Sat (17 ≤ h.just) (parseBinary h firstLatch firstAnd inp) (fun p => p.WF ∧ Topo p.gates) := by
+    Sat (cfg.justiceSum = false ∧ 17 ≤ h.just) (parseBinary cfg h firstLatch firstAnd inp)
+      (fun p => p.WF ∧ Topo p.gates) := by
   have h0 := hh.vars; have h1 := hh.inputs; have h2 := hh.latches; have h4 := hh.and_
   have hv := hh.binVars hb
   rw [maxCap_val] at h0 h1 h2 h4
@@ -121,7 +123,7 @@ theorem parseBinary_sat {h : Header} (hh : HeaderOK h) (hb : h.binary = true) {f
   apply Sat.bind (binLatches_sat (tvlen := h.latches) hs h.latches firstLatch 0 [] ⟨[], h.latches⟩ inp
     (by omega) (by simp) rfl rfl)
   rintro ⟨⟨latches, tv⟩, r0⟩ ⟨hl, hll, htv⟩
-  apply Sat.bind (sections_sat (fun i => binLiteralLine_sat hs i) h r0)
+  apply Sat.bind (sections_sat cfg (fun i => binLiteralLine_sat hs i) h r0)
   rintro ⟨sec, r1⟩ hsec
   have hsec : SecOK (LitOK (h.inputs + h.latches) h.and_) h sec := hsec
   apply Sat.bind (binAnds_sat hs h.and_ firstAnd [] r1 rfl (by simp) (by simp)
@@ -134,9 +136,11 @@ theorem parseBinary_sat {h : Header} (hh : HeaderOK h) (hb : h.binary = true) {f
   rintro p ⟨hp, hpg⟩
   exact ⟨hp, by rw [hpg]; exact ht⟩
 
-theorem parseAscii_sat {h : Header} (hh : HeaderOK h) (c : Bool) {firstLatch firstAnd : Nat}
+theorem parseAscii_sat (cfg : Cfg) {h : Header} (hh : HeaderOK h) (c : Bool)
+    {firstLatch firstAnd : Nat}
     (hfl : firstLatch = 1 + h.inputs) (hfa : firstAnd = firstLatch + h.latches) (inp : Bytes) :
-    Sat (17 ≤ h.just) (parseAscii c h firstLatch firstAnd inp) (fun p => p.WF) := by
+    Sat (cfg.justiceSum = false ∧ 17 ≤ h.just) (parseAscii cfg c h firstLatch firstAnd inp)
+      (fun p => p.WF) := by
   have h0 := hh.vars; have h1 := hh.inputs; have h2 := hh.latches; have h4 := hh.and_
   have hmv := hh.minVars
   rw [maxCap_val] at h0 h1 h2 h4
@@ -162,7 +166,7 @@ theorem parseAscii_sat {h : Header} (hh : HeaderOK h) (c : Bool) {firstLatch fir
     ⟨hl1, hm1, by simp, rfl, rfl⟩)
   rintro ⟨lacc, r1⟩ hlacc
   have hlacc : LatchAccOK h.vars (h.inputs + h.latches) h.and_ (0 + h.latches) h.latches lacc := hlacc
-  apply Sat.bind (sections_sat (Qe := fun x => x / 2 ≤ h.vars)
+  apply Sat.bind (sections_sat cfg (Qe := fun x => x / 2 ≤ h.vars)
     (fun i => (literalLine_sat h.vars i).mono (fun q hq => hq.1)) h r1)
   rintro ⟨raw, r2⟩ hraw
   have hraw : SecOK (fun x => x / 2 ≤ h.vars) h raw := hraw
@@ -192,7 +196,7 @@ theorem parseAscii_sat {h : Header} (hh : HeaderOK h) (c : Bool) {firstLatch fir
     obtain ⟨⟨⟨⟨⟨⟨e0, e1⟩, e2⟩, e3⟩, e4⟩, e5⟩, e6⟩ := hu
     have hgl : gates.length = h.and_ := by omega
     have hgok := hok6 e6
-    have hcc := cycleCheck_sat (ar := 17 ≤ h.just) (nin := h.inputs + h.latches) c
+    have hcc := cycleCheck_sat (ar := cfg.justiceSum = false ∧ 17 ≤ h.just) (nin := h.inputs + h.latches) c
       (gates := gates) (by rw [hgl]; exact hgok)
     rw [← hlen6]
     apply Sat.bind hcc
@@ -202,14 +206,14 @@ theorem parseAscii_sat {h : Header} (hh : HeaderOK h) (c : Bool) {firstLatch fir
       (by rw [hlen3, hraw.invLen]) (hok3 e3) (by rw [hlen4, hraw.justLen]) (hok4 e4)
       (by rw [hlen5, hraw.fairLen]) (hok5 e5) hm2 r3).mono (fun p hp => hp.1)
 
-/-- the specification of `parse`: an accepted problem is well-formed (and topologically ordered in
-the binary format); the only model panic is the overflow of the justice sum, which needs a header
-with at least 17 justice properties -/
-theorem parse_sat (c : Bool) (inp : Bytes) :
-    Sat (∃ h r, header inp = .ok (h, r) ∧ 17 ≤ h.just) (parse c inp)
+/-- the specification of the parser model: an accepted problem is well-formed (and topologically
+ordered in the binary format); the only model panic is the overflow of the justice sum of the code
+before commit a6ab3b1, which needs a header with at least 17 justice properties -/
+theorem parseCfg_sat (cfg : Cfg) (c : Bool) (inp : Bytes) :
+    Sat (cfg.justiceSum = false ∧ ∃ h r, header inp = .ok (h, r) ∧ 17 ≤ h.just) (parseCfg cfg c inp)
       (fun p => p.WF ∧ ((∃ h r, header inp = .ok (h, r) ∧ h.binary = true) → Topo p.gates)) := by
   have hhead := header_sat (ar := False) inp
-  unfold parse
+  unfold parseCfg
   cases hh : header inp with
   | error d =>
     rw [hh] at hhead
@@ -218,7 +222,8 @@ theorem parse_sat (c : Bool) (inp : Bytes) :
     obtain ⟨h, r0⟩ := q
     rw [hh] at hhead
     have hok : HeaderOK h := hhead
-    refine Sat.weaken (ar := 17 ≤ h.just) ?_ (fun hj => ⟨h, r0, rfl, hj⟩)
+    refine Sat.weaken (ar := cfg.justiceSum = false ∧ 17 ≤ h.just) ?_
+      (fun hj => ⟨hj.1, h, r0, rfl, hj.2⟩)
     have h1 := hok.inputs; have h2 := hok.latches; have h4 := hok.and_
     rw [maxCap_val] at h1 h2 h4
     apply Sat.bind (Sat.ok (Q := fun q => q = (h, r0)) rfl)
@@ -236,15 +241,21 @@ theorem parse_sat (c : Bool) (inp : Bytes) :
     intro _ _
     split
     · rename_i hb
-      refine (parseBinary_sat hok hb hfl hfa r0).mono ?_
+      refine (parseBinary_sat cfg hok hb hfl hfa r0).mono ?_
       rintro p ⟨hp, ht⟩
       exact ⟨hp, fun _ => ht⟩
     · rename_i hb
-      refine (parseAscii_sat hok c hfl hfa r0).mono ?_
+      refine (parseAscii_sat cfg hok c hfl hfa r0).mono ?_
       intro p hp
       refine ⟨hp, ?_⟩
       rintro ⟨h', r', he, hb'⟩
       cases he
       exact absurd hb' hb
+
+/-- the specification of `parse` (the code as it is): no panic, accepted problems are well-formed -/
+theorem parse_sat (c : Bool) (inp : Bytes) :
+    Sat False (parse c inp)
+      (fun p => p.WF ∧ ((∃ h r, header inp = .ok (h, r) ∧ h.binary = true) → Topo p.gates)) :=
+  (parseCfg_sat Cfg.fixed c inp).weaken (fun h => by cases h.1)
 
 end OxiddModel.AigerParse
